@@ -160,6 +160,112 @@ func (c *cluster) request(s string, entering []*cnode, U uint32, phase string, p
 	return first
 }
 
+// outage: node x stops answering (connections refused, or 500 on every path) and comes back before any node has probed
+// it, so every node regards it as healthy throughout. While it is away, a request that enters at another node may fail;
+// if it is answered, it is answered by the node the entry node computes as owner, from that node's pool alone. When x is
+// back the same subscribers are requested at every node: over the whole episode one pool holds each of them.
+func (c *cluster) outage(x *cnode, subs []string) {
+	fm := mode500
+	if c.rng.IntN(2) == 0 {
+		fm = modeClosed
+	}
+	suffix := "/" + c.form
+	comp := "pool.PeerPool.Allocate"
+	var live []*cnode
+	for _, n := range c.nodes {
+		if n != x {
+			live = append(live, n)
+		}
+	}
+	c.setMode(x, fm)
+	if c.broken {
+		return
+	}
+	servedBy := map[string]string{}
+	heldIn := map[string]map[int]bool{}
+	for _, s := range subs {
+		before := c.allocated()
+		var resps []e2eResp
+		heldIn[s] = map[int]bool{}
+		ofX := false
+		for _, e := range shuffledNodes(live, c.rng) {
+			exp, ranked := expectedOwner(e, s)
+			ctx, cancel := context.WithTimeout(context.Background(), 20*time.Second)
+			r, err := e.pool.Allocate(ctx, s, net.HardwareAddr{2, 0, 0, byte(c.rng.IntN(256)), byte(c.rng.IntN(256)), byte(c.rng.IntN(256))})
+			cancel()
+			rr := e2eResp{Entry: e.id}
+			if err != nil {
+				rr.Err = err.Error()
+			} else {
+				rr.NodeID, rr.IP = r.NodeID, r.IP
+			}
+			resps = append(resps, rr)
+			run.Count("e2e_requests", 1)
+			run.Count("e2e_requests_owner-unreachable-"+modeName[fm], 1)
+			wit := func() map[string]any {
+				return map[string]any{"cluster": c.key(), "phase": "owner-unreachable-" + modeName[fm], "unreachable_but_regarded_healthy": q(x.id), "subscriber": q(s), "entry_node": q(e.id), "ranked_on_entry_node": qs(ranked), "owner_by_entry_node": q(exp), "responses_so_far": resps, "allocated_before": before, "allocated_now": c.allocated()}
+			}
+			if exp == x.self {
+				ofX = true
+				run.Count("e2e_outage_requests_for_subscribers_of_unreachable_owner", 1)
+				if err != nil {
+					run.Count("e2e_outage_requests_refused", 1)
+				}
+			} else if err != nil {
+				run.Violation(comp, "served-by-exactly-one-pool", "request-failed-although-owner-reachable"+suffix, fmt.Sprintf("%s does not answer; the request for %s entering at %s, whose owner %s is reachable, failed: %s", q(x.id), q(s), q(e.id), q(exp), rr.Err), wit())
+			}
+			if err == nil {
+				if r.NodeID != exp {
+					run.Violation(comp, "node-id-equals-owner", "served-by-other-node-while-owner-unreachable"+suffix, fmt.Sprintf("%s does not answer but every node regards it as healthy: the request for %s entering at %s was answered by NodeID %s, the owner by the entry node's ranking %s is %s", q(x.id), q(s), q(e.id), q(r.NodeID), qs(ranked), q(exp)), wit())
+				}
+				if servedBy[s] == "" {
+					servedBy[s] = r.NodeID
+				}
+			}
+		}
+		after := c.allocated()
+		for i := range after {
+			if after[i] > before[i] {
+				heldIn[s][i] = true
+			}
+		}
+		exp0, _ := expectedOwner(live[0], s)
+		for i := range heldIn[s] {
+			if c.nodes[i].self != exp0 {
+				run.Violation(comp, "served-by-exactly-one-pool", "pool-of-non-owner-allocated-while-owner-unreachable"+suffix, fmt.Sprintf("%s does not answer but every node regards it as healthy: the request for %s (owner %s) made the pool of %s allocate", q(x.id), q(s), q(exp0), q(c.nodes[i].self)),
+					map[string]any{"cluster": c.key(), "phase": "owner-unreachable-" + modeName[fm], "unreachable_but_regarded_healthy": q(x.id), "subscriber": q(s), "responses": resps, "allocated_before": before, "allocated_after": after})
+			}
+		}
+		run.Eval()
+		if ofX {
+			run.Nontrivial("e2e-outage|" + c.key() + "|" + x.id + "|" + s)
+		}
+	}
+	c.setMode(x, modeOK)
+	if c.broken {
+		return
+	}
+	for _, s := range subs {
+		before := c.allocated()
+		c.request(s, shuffledNodes(c.nodes, c.rng), 0, "after-owner-outage", servedBy[s])
+		after := c.allocated()
+		for i := range after {
+			if after[i] > before[i] {
+				heldIn[s][i] = true
+			}
+		}
+		if len(heldIn[s]) > 1 {
+			var pools []string
+			for i := range heldIn[s] {
+				pools = append(pools, c.nodes[i].self)
+			}
+			run.Violation(comp, "served-by-exactly-one-pool", "subscriber-held-in-several-pools-after-owner-outage"+suffix, fmt.Sprintf("%s did not answer for a while (no node ever regarded it as unhealthy): over the episode subscriber %s was allocated in the pools of %s", q(x.id), q(s), qs(sortedCopy(pools))),
+				map[string]any{"cluster": c.key(), "unreachable_for_a_while": q(x.id), "subscriber": q(s), "pools_that_allocated": qs(sortedCopy(pools))})
+		}
+	}
+	run.Count("e2e_outages", 1)
+}
+
 func shuffledNodes(ns []*cnode, rng *rand.Rand) []*cnode {
 	out := append([]*cnode(nil), ns...)
 	rng.Shuffle(len(out), func(i, j int) { out[i], out[j] = out[j], out[i] })
@@ -194,6 +300,11 @@ func e2eScenario(c *cluster, k int, withHealth bool) {
 	if len(hist) > 0 {
 		h := hist[0]
 		sampleOnce("end-to-end", map[string]any{"naming_form": c.form, "nodes": qs(c.ids()), "subscriber": q(h.s), "served_by": q(h.node), "entered_at": "every node", "allocated_per_node": c.allocated()})
+	}
+	if len(c.nodes) >= 2 {
+		for n := 0; n < 2 && !c.broken; n++ {
+			c.outage(c.nodes[rng.IntN(len(c.nodes))], fresh(k/2))
+		}
 	}
 	if !withHealth || len(c.nodes) < 2 {
 		return
